@@ -24,7 +24,7 @@ PLAN = {
     ),
     "C12": dict(
         quick=[dict(test="TestC12Rapid", checks=3000), *shards("TestC12Names", 4)],
-        thorough=[*shards("TestC12Rapid", 12, checks=40000), *shards("TestC12Names", 4)],
+        thorough=[*shards("TestC12Rapid", 12, checks=6000), *shards("TestC12Names", 4)],
     ),
     "C04": dict(
         quick=[dict(test="TestC04Rapid", checks=4000), *shards("TestC04Enum", 4)],
